@@ -521,8 +521,56 @@ func domCheck(sum *Summary, c json.RawMessage, gc *graphCase, rng *rand.Rand, he
 					sum.viol("argument-modified", c, "DomFrontier modified the supplied idom")
 				}
 			}
+			// the same flow graph handed over as other concrete types: wrapped as a unit-weighted graph (not a BiGraph itself,
+			// so MakeBiGraph has to build the predecessor lists), and as a BiGraph of the harness's own
+			if v.name == "as-given" {
+				for wi, og := range []graph.Graph{graph.WeightedUnit{Graph: g}, &ownBiGraph{g: g}, graph.WeightedUnit{Graph: &ownBiGraph{g: g}}} {
+					ob := graph.MakeBiGraph(og)
+					if id2 := graphalg.IDom(ob, rr.R); !intsEq(id2, rr.IDom) {
+						sum.viol("IDom", c, "root %d, graph passed as %T (variant %d): got %v want %v (adj %v)", rr.R, og, wi, id2, rr.IDom, v.adj)
+					}
+					if df2 := graphalg.DomFrontier(ob, rr.R, nil); len(df2) == gc.N {
+						for _, x := range rr.Reach {
+							if !setEqExcept(df2[x], rr.DF[x], dontcare) {
+								sum.viol("DomFrontier", c, "root %d, graph passed as %T: DF(%d)=%v want %v", rr.R, og, x, df2[x], rr.DF[x])
+							}
+						}
+					} else {
+						sum.viol("DomFrontier", c, "root %d, graph passed as %T: %d entries for %d nodes", rr.R, og, len(df2), gc.N)
+					}
+				}
+			}
 			// Dom: child lists invert IDom
 			t := graphalg.Dom(idom)
+			// the dominator tree is itself a flow graph (a BiGraph): from ANY root r2 the reachable nodes are r2's subtree, each
+			// dominated immediately by its parent
+			if v.name == "as-given" {
+				kids := make([][]int, gc.N)
+				for x, p := range rr.IDom {
+					if p >= 0 {
+						kids[p] = append(kids[p], x)
+					}
+				}
+				for r2 := 0; r2 < gc.N; r2++ {
+					want := make([]int, gc.N)
+					for i := range want {
+						want[i] = -1
+					}
+					stack := []int{r2}
+					for len(stack) > 0 {
+						p := stack[len(stack)-1]
+						stack = stack[:len(stack)-1]
+						for _, ch := range kids[p] {
+							want[ch] = p
+							stack = append(stack, ch)
+						}
+					}
+					sum.Checks++
+					if got := graphalg.IDom(t, r2); !intsEq(got, want) {
+						sum.viol("IDom", c, "the dominator tree for root %d (idom %v) as a flow graph with root %d: IDom=%v want %v", rr.R, rr.IDom, r2, got, want)
+					}
+				}
+			}
 			if t.NumNodes() != gc.N {
 				sum.viol("Dom", c, "NumNodes %d want %d", t.NumNodes(), gc.N)
 			}
@@ -711,6 +759,20 @@ func subReplay(in io.Reader, raw bool, args []string) (*Summary, error) {
 		}
 		for _, rq := range sc.Remove {
 			run("remove", rq)
+			// the same set of nodes and edges named by a list with repetitions (first id again at the end, then the whole list
+			// once more in reverse): "the given nodes" is a set however it is written down
+			if len(rq.Nodes) > 0 || len(rq.Edges) > 0 {
+				dup := rq
+				dup.Nodes = append([]int{}, rq.Nodes...)
+				if len(rq.Nodes) > 0 {
+					dup.Nodes = append(dup.Nodes, rq.Nodes[0])
+				}
+				for i := len(rq.Nodes) - 1; i >= 0; i-- {
+					dup.Nodes = append(dup.Nodes, rq.Nodes[i])
+				}
+				dup.Edges = append(append([][]int{}, rq.Edges...), rq.Edges...)
+				run("remove", dup)
+			}
 		}
 		for _, rq := range sc.Keep {
 			run("keep", rq)
@@ -720,4 +782,21 @@ func subReplay(in io.Reader, raw bool, args []string) (*Summary, error) {
 		}
 	})
 	return sum, err
+}
+
+// ownBiGraph: a BiGraph implemented by the harness (predecessor lists computed on demand, no caching).
+type ownBiGraph struct{ g graph.IntGraph }
+
+func (o *ownBiGraph) NumNodes() int   { return o.g.NumNodes() }
+func (o *ownBiGraph) Out(i int) []int { return o.g.Out(i) }
+func (o *ownBiGraph) In(i int) []int {
+	var in []int
+	for u := range o.g {
+		for _, t := range o.g[u] {
+			if t == i {
+				in = append(in, u)
+			}
+		}
+	}
+	return in
 }
